@@ -105,21 +105,26 @@ Definition slice_id (sl : list nat) : nat := fold_left (fun a x => a * 41 + x + 
 Definition id_epochs (k : nat) (sl : list nat) : list (nat * nat * nat) :=
   map (fun e => (k, slice_id sl, e)) (seq 0 (length sl)).
 
+(* the caller's compute_features_kwargs argument: not given (None), one dict shared by all
+   slices (id 999), or a list of option-set ids (one per slice; a singleton is shared) *)
+Inductive gkw := GNone | GShared | GList (l : list nat).
 Inductive gcase :=
-| G2 (sigma : list nat) (kw : option (list nat)) (n0 : nat)            (* kw: None = shared *)
-| G3 (ax : nat) (sigma : list nat) (kw : option (list nat)) (n0 n1 : nat).   (* ax: 0, 1, 2 = (0,1) *)
-Definition spec_of (kw : option (list nat)) : @kwspec nat :=
-  match kw with None => KwOne 999 | Some l => KwList l end.
+| G2 (sigma : list nat) (kw : gkw) (n0 : nat)
+| G3 (ax : nat) (sigma : list nat) (kw : gkw) (n0 n1 : nat).   (* ax: 0, 1, 2 = (0,1) *)
+Definition spec_of (kw : gkw) : @kwspec nat :=
+  match kw with GNone => KwNone | GShared => KwOne 999 | GList l => KwList l end.
+(* the empty option set {} (what None stands for) has id 998 *)
+Definition none_id : nat := 998.
 (* signal ids: row-major i*n1+j *)
 Definition sig_ids (n0 n1 : nat) : list (list nat) :=
   map (fun i => map (fun j => i * n1 + j) (seq 0 n1)) (seq 0 n0).
 (* column slices are identified by their first signal too (id j) *)
 Definition run_group (g : gcase) : list (list (nat * nat * nat)) :=
   match g with
-  | G2 sigma kw n0 => [group2d_axis0 id_cf 0 0 sigma (spec_of kw) (seq 0 n0)]
-  | G3 0 sigma kw n0 n1 => group3d_axis0 id_epochs 0 sigma (spec_of kw) (sig_ids n0 n1)
-  | G3 1 sigma kw n0 n1 => group3d_axis1 id_epochs 0 0 (0, 0, 0) sigma (spec_of kw) (sig_ids n0 n1) n1
-  | G3 _ sigma kw n0 n1 => group3d_axis01 id_cf 0 0 (0, 0, 0) sigma (spec_of kw) (sig_ids n0 n1) n1
+  | G2 sigma kw n0 => [group2d_axis0 id_cf none_id 0 sigma (spec_of kw) (seq 0 n0)]
+  | G3 0 sigma kw n0 n1 => group3d_axis0 id_epochs none_id sigma (spec_of kw) (sig_ids n0 n1)
+  | G3 1 sigma kw n0 n1 => group3d_axis1 id_epochs none_id 0 (0, 0, 0) sigma (spec_of kw) (sig_ids n0 n1) n1
+  | G3 _ sigma kw n0 n1 => group3d_axis01 id_cf none_id 0 (0, 0, 0) sigma (spec_of kw) (sig_ids n0 n1) n1
   end.
 Definition triple_eqb (a b : nat * nat * nat) : bool :=
   let '(x, y, z) := a in let '(x', y', z') := b in Nat.eqb x x' && Nat.eqb y y' && Nat.eqb z z'.
